@@ -73,12 +73,18 @@ def r2_r3(chk, prog):
         except Unsupported as u:
             raise AnalysisBroken('%s::processLevel not interpretable: %s' % (cls, u))
         bad = None
-        for env, out, _ in rows:
-            l = env[f.params[0]['name']]
-            m = env['this.' + fld]
-            if bool(out[1]) != oracle(l, m):
-                bad = (env, out)
-        chk.check(bad is None, 'R2', f.name, 'accepts exactly %s' % txt, f.loc(), 'counter example %s' % (bad,))
+        have = {a for a, _ in atoms}
+        if not {f.params[0]['name'], 'this.' + fld} <= have:
+            # the verdict does not depend on the level given / on the configured level at all
+            chk.check(False, 'R2', f.name, 'accepts exactly %s' % txt, f.loc(),
+                      'the result is a function of %s only' % (sorted(have) or 'nothing'))
+        else:
+            for env, out, _ in rows:
+                l = env[f.params[0]['name']]
+                m = env['this.' + fld]
+                if bool(out[1]) != oracle(l, m):
+                    bad = (env, out)
+            chk.check(bad is None, 'R2', f.name, 'accepts exactly %s' % txt, f.loc(), 'counter example %s' % (bad,))
         # pass( msg) is the same predicate of msg.getLevel()
         g = prog.one(cq, 'pass')
         try:
@@ -86,7 +92,11 @@ def r2_r3(chk, prog):
         except Unsupported as u:
             raise AnalysisBroken('%s::pass not interpretable: %s' % (cls, u))
         lvl_atom = [a for a, _ in atoms2 if 'getLevel' in a]
-        chk.require(len(lvl_atom) == 1, '%s::pass does not read msg.getLevel(): atoms %s' % (cls, atoms2))
+        if len(lvl_atom) != 1 or ('this.' + fld) not in {a for a, _ in atoms2}:
+            chk.check(False, 'R3', g.name, 'pass(msg) is the same predicate as processLevel(msg.getLevel())', g.loc(),
+                      'the result is a function of %s only: it does not depend on the level of the message / the '
+                      'configured level' % (sorted(a for a, _ in atoms2) or 'nothing'))
+            continue
         bad = None
         for env, out, _ in rows2:
             if bool(out[1]) != oracle(env[lvl_atom[0]], env['this.' + fld]):
@@ -481,6 +491,39 @@ def r8_class_filter(chk, prog):
     return n
 
 
+def r9_precheck_entry(chk, prog, rule='R9'):
+    """the cheap level pre-check of the LOG_LEVEL macros (detail::discard_by_level) never discards what the full
+    path would deliver: the function it asks is Filters::processLevel of the log - or, if the log class brings its
+    own, that function answers 'no' only because the log's own level filters say no or because it has looked at ALL
+    destinations without finding one that accepts (a `return false` inside the loop over the destinations makes one
+    rejecting destination enough, although any other destination would take the message)"""
+    fs = [f for f in prog.functions if f.short == 'discard_by_level' and f.body is not None]
+    chk.require(fs, 'detail::discard_by_level not instantiated')
+    for f in fs:
+        calls = [c for c in f.calls() if callee_is(c, 'processLevel')]
+        chk.require(len(calls) == 1, 'discard_by_level: call of processLevel() not found')
+        q = calls[0].get('callee') or ''
+        if q == 'celma::log::filter::Filters::processLevel':
+            chk.ok(rule, f.name, 'the pre-check asks the level filters of the log (Filters::processLevel)', f.loc(calls[0]))
+            continue
+        g = prog.by_key.get(calls[0].get('ckey'), [None])[0]
+        if g is None or g.body is None:
+            raise AnalysisBroken('discard_by_level asks %s, whose definition is not part of the analysed units' % q)
+        loops = loops_in(g)
+        bad = []
+        for r in (x for x in g.walk() if x.get('k') == 'ReturnStmt' and children(x)):
+            v = strip_all_casts(children(r)[0])
+            if v.get('k') == 'CXXBoolLiteralExpr' and not v.get('val'):
+                inside = [l for l in loops if any(r is y for y in walk(l))]
+                if inside:
+                    bad.append(r)
+        own = [c for c in g.calls() if (c.get('callee') or '') == 'celma::log::filter::Filters::processLevel']
+        chk.check(not bad and bool(own), rule, g.name, 'a pre-check of its own discards only what the log\'s level '
+                  'filters or ALL destinations reject', g.loc(bad[0]) if bad else g.loc(),
+                  'one rejecting destination ends the check with "discard"' if bad else
+                  'the level filters of the log are not consulted')
+
+
 def run(chk):
     units = units_matching('library/log/') + [os.path.join(VERIF, 'drivers', 'log.cpp')]
     if chk.tier == 'thorough':
@@ -511,3 +554,5 @@ def run(chk):
     r7_policy_identity(chk, prog)
     chk.rule('R8', 'the class-list filter accepts precisely the classes it names', 2)
     r8_class_filter(chk, prog)
+    chk.rule('R9', 'the macro pre-check asks the level filters of the log (or a sound refinement)', 2)
+    r9_precheck_entry(chk, prog)
